@@ -421,7 +421,7 @@ impl<'a> Interp<'a> {
                 weak,
                 ordered,
             },
-            UnOp::Shuffle => RS {
+            UnOp::Shuffle | UnOp::RepartBy(..) => RS {
                 v,
                 weak,
                 ordered: ordered && self.sc.layout.total_cores() == 1,
